@@ -113,7 +113,13 @@ class Probe(SourceProxy):
                 sel, trigger=self._make_emitter(sel), pass_info=True
             )
         else:
-            return Total(sel, close=self._make_emitter(sel))
+            emitter = self._make_emitter(sel)
+            if emitter == self._emit2:
+                raise ValueError(
+                    "A selector with a second focus (!!) needs the 'immediate'"
+                    f" probe type: {sel}"
+                )
+            return Total(sel, close=emitter)
 
     def _install_tooling(self):
         installed = []
